@@ -538,6 +538,7 @@ var giStructs = []struct {
 	{"", reflect.TypeOf(ZvBase{})}, {"", reflect.TypeOf(ZvDeep{})}, {"", reflect.TypeOf(ZvBase2{})},
 	{"zvnode", reflect.TypeOf(ZvNode{})}, {"zvwrap", reflect.TypeOf(ZvWrap{})}, {"zvhost", reflect.TypeOf(ZvHost{})},
 	{"zvpair", reflect.TypeOf(ZvPair{})}, {"zvemb", reflect.TypeOf(ZvEmb{})},
+	{"", reflect.TypeOf(ZvL4{})}, {"", reflect.TypeOf(ZvL3{})}, {"", reflect.TypeOf(ZvL2{})}, {"zvtower", reflect.TypeOf(ZvTower{})},
 	{"persondemo", reflect.TypeOf(zygo.Person{})}, {"eventdemo", reflect.TypeOf(zygo.Event{})},
 	{"", reflect.TypeOf(zygo.Wings{})}, {"plane", reflect.TypeOf(zygo.Plane{})}, {"snoopy", reflect.TypeOf(zygo.Snoopy{})},
 	{"hornet", reflect.TypeOf(zygo.Hornet{})}, {"hellcat", reflect.TypeOf(zygo.Hellcat{})},
@@ -932,6 +933,15 @@ func (b *giGb) small(reg string, k int) giVal {
 		return b.rec("zvpair", giFld("l", giStr("pl")))
 	case "zvemb":
 		return b.rec("zvemb", giFld("x", giStr("ex")), giFld("id", giInt(3)))
+	case "zvtower":
+		switch k % 3 {
+		case 0:
+			return b.rec("zvtower", giFld("d1", giInt(1)), giFld("d2", giInt(2)), giFld("ds", giStr("s")), giFld("d3", giInt(3)),
+				giFld("c1", giStr("c")), giFld("c2", giInt(4)), giFld("b1", giInt(5)), giFld("a1", giStr("a")))
+		case 1:
+			return b.rec("zvtower", giFld("d3", giInt(7)), giFld("d1", giInt(-1)), giFld("c1", giStr("x")))
+		}
+		return b.rec("zvtower", giFld("d2", giInt(42)), giFld("ds", giStr("only")))
 	case "zvhost":
 		return b.rec("zvhost", giFld("n", giInt(1)))
 	case "hellcat":
@@ -1138,7 +1148,7 @@ func (b *giGb) wrong(t reflect.Type) []func() giVal {
 }
 
 // the registered types whose records are generated as roots
-var giRootTypes = []string{"zvleaf", "zvodd", "zvbox", "zvnode", "zvwrap", "zvpair", "zvemb", "zvhost",
+var giRootTypes = []string{"zvleaf", "zvodd", "zvbox", "zvnode", "zvwrap", "zvpair", "zvemb", "zvtower", "zvhost",
 	"persondemo", "eventdemo", "plane", "snoopy", "hornet", "hellcat", "weather", "setOfPlanes", "nestouter", "nestinner"}
 
 // reference positions of a root type: how to wrap a child record so that the root refers to it
@@ -1154,7 +1164,7 @@ func giOne(k string) func(b *giGb, c giVal) []giField {
 	return func(b *giGb, c giVal) []giField { return []giField{giFld(k, c)} }
 }
 
-var giAnyTypes = []string{"zvleaf", "zvodd", "zvbox", "zvnode", "zvwrap", "zvpair", "zvemb"}
+var giAnyTypes = []string{"zvleaf", "zvodd", "zvbox", "zvnode", "zvwrap", "zvpair", "zvemb", "zvtower"}
 var giFlyers = []string{"hellcat", "hornet", "snoopy"}
 
 var giPositions = []giPos{
@@ -1189,6 +1199,8 @@ var giPositions = []giPos{
 	{"w.next", "zvwrap", []string{"zvnode"}, "ptr", giOne("next")},
 	{"p.a", "zvpair", []string{"zvleaf"}, "ptr", giOne("a")},
 	{"p.b", "zvpair", giAnyTypes, "iface", giOne("b")},
+	{"t.dp", "zvtower", []string{"zvleaf"}, "ptr", giOne("dp")},
+	{"t.ref", "zvtower", giAnyTypes, "iface", giOne("ref")},
 	{"chld", "snoopy", giFlyers, "iface", giOne("chld")},
 	{"friends0", "snoopy", giFlyers, "iface", func(b *giGb, c giVal) []giField { return []giField{giFld("friends", giArr(c))} }},
 	{"carrying1", "snoopy", giFlyers, "iface", func(b *giGb, c giVal) []giField {
@@ -1551,7 +1563,7 @@ func (gg *giGen) random(n int) {
 		pool := map[string][]giVal{}
 		reg := pick(gg.r, giRootTypes)
 		if gg.r.intn(3) == 0 {
-			reg = pick(gg.r, []string{"zvnode", "zvwrap", "zvpair", "snoopy"})
+			reg = pick(gg.r, []string{"zvnode", "zvwrap", "zvpair", "snoopy", "zvtower"})
 		}
 		root := gg.randRec(b, reg, 1, pool)
 		g := b.graph(root)
